@@ -140,7 +140,14 @@ def run(ctx):
                 opk = rr.choice(["=", "!=", "like", "notlike", "not like", "===", "!==", "=~", "!=~"])
                 kind = oracle.OPK[opk]
                 base = rr.choice(names)
-                if kind in WILD:
+                if kind in WILD and rr.chance(1, 4) and len(base) >= 1:
+                    # one wildcard whose fixed prefix and suffix overlap in the name: `ab*ab` must not match `ab`
+                    i = rr.range(1, len(base))
+                    j = rr.range(0, i - 1) if i > 0 else 0
+                    lit = base[:i] + WILD[kind][0] + base[j:]
+                    if rr.chance(1, 3):
+                        lit = lit.swapcase()
+                elif kind in WILD:
                     lit = derive_pattern(rr, base, WILD[kind])
                 elif kind in ("eeq", "ene"):
                     lit = base if rr.chance(1, 2) else derive_pattern(rr, base, "*?")
